@@ -659,8 +659,17 @@ func (r *run) judge() {
 			for _, n := range r.sc.Declared {
 				declared = declared || n == l.name
 			}
-			if _, ok := d[l.name]; ok && !declared {
-				r.fail("C16", "failed-lookup-installed", "every LookupSecret(%q) failed, yet the store holds the secret", l.name)
+			// A caller that gave up (its own context ended) while the service was answering its request does
+			// not make the request a failed one: the value the service served may be installed.  Only a name
+			// for which the service never answered successfully must be absent.
+			served := false
+			for _, q := range r.svc.Log {
+				if q.Name == l.name && strings.HasPrefix(q.Result, "v") {
+					served = true
+				}
+			}
+			if _, ok := d[l.name]; ok && !declared && !served {
+				r.fail("C16", "failed-lookup-installed", "every LookupSecret(%q) failed and the service never answered a request for it successfully, yet the store holds the secret", l.name)
 			}
 		}
 	}
